@@ -5,6 +5,12 @@
 (*   - a widget returns a surface no larger than the maximum it was given;  *)
 (*   - a centring widget places a child that fits fully inside itself with  *)
 (*     margins equal to within one cell.                                    *)
+(*   - a widget RETURNS a surface for zero, tiny and very large constraints *)
+(*     and contents: a Draw that never comes back is no better than one     *)
+(*     that panics. An observation carries ret = FALSE when the call did    *)
+(*     not come back within the observer's budget (a list that is still     *)
+(*     asking for further rows after thousands of times the number of lines *)
+(*     of its viewport).                                                    *)
 (* A drawn node is [kind, w, h, kids] with kids = sequence of [x, y, n].    *)
 EXTENDS Integers, Sequences
 
@@ -12,6 +18,8 @@ Unbounded == 65535
 
 DimOK(v, m) == m = Unbounded \/ v <= m
 SizeOK(w, h, mw, mh) == DimOK(w, mw) /\ DimOK(h, mh)
+
+Returns(obs) == obs.ret
 
 Abs(x) == IF x < 0 THEN -x ELSE x
 
